@@ -39,7 +39,13 @@ def run(ctx):
             continue
         h = val[2][0]
         seedexpr[sampler] = (h, idx, ls)
-        is_enum = (isinstance(ls.elem, Tup) and ev.t(ls.elem.items[0]) is ls.var and idx is ls.var) or (getattr(ls, 'enum_like', False) and idx is ls.var)
+        def counts(x):
+            try:
+                return ev.t(x) is ls.var
+            except Exception:
+                return False
+        # the chain index is the loop's own counter: `enumerate()`, or a zip with `0..` on either side
+        is_enum = (isinstance(ls.elem, Tup) and any(counts(x) for x in ls.elem.items) and idx is ls.var) or (getattr(ls, 'enum_like', False) and idx is ls.var)
         inj = is_enum and (not contains(T.sub(h, idx), idx) or not contains(T.add(h, idx), idx)) and contains(h, idx)
         ctx.check('C08.R8.1', anchor, 'rng', inj, expected='seed expression affine in the chain index with coefficient +-1 (injective on chains)', found=show(h), sp=b['sp'],
                   why='two chains seeded identically consume the same random stream')
